@@ -439,7 +439,7 @@ class EtherCat(Protocol):
         elif args:
             if not isinstance(data, int):
                 data = len(data)
-            return unpack(fmt, ret[:-data]) + (ret[-data:],)
+            return unpack(fmt, ret[:len(ret) - data]) + (ret[len(ret) - data:],)
         else:
             return ret
 
